@@ -76,6 +76,8 @@ func (h *Handler) handleDiscover(p packet.DHCP4, options packet.DHCP4Options) (d
 			lease.IPOffer = netip.Addr{}
 		} else if l := h.findByIP(lease.IPOffer); l != nil && l != lease && l.State != StateFree {
 			lease.IPOffer = netip.Addr{} // the address went to another client that was offered it too
+		} else if host := h.session.FindIP(lease.IPOffer); host != nil && !bytes.Equal(host.MACEntry.MAC, lease.Addr.MAC) {
+			lease.IPOffer = netip.Addr{} // another station started using the address since it was offered
 		}
 
 	// a freed lease has no outstanding offer: an offer that expired with it may belong to another client by now
